@@ -340,10 +340,12 @@ where
         let request_hash = response.request_type().hash();
 
         // check whether we are (still) waiting on response to this request
-        let Some(_) = self.outstanding_requests.remove(&request_hash) else {
+        // the request only stops being outstanding once a response to it passed validation,
+        // otherwise a single bad response would cancel the request and its retries
+        if !self.outstanding_requests.contains_key(&request_hash) {
             warn!("received repair response for unknown request {response:?}");
             return;
-        };
+        }
 
         match response {
             RepairResponse::Nack(req_type) => {
@@ -368,6 +370,8 @@ where
                     warn!("repair response (LastSliceRoot) with invalid proof");
                     return;
                 }
+
+                self.outstanding_requests.remove(&request_hash);
 
                 // store slice Merkle root
                 self.slice_roots
@@ -394,6 +398,8 @@ where
                     warn!("repair response (SliceRoot) with invalid proof");
                     return;
                 }
+
+                self.outstanding_requests.remove(&request_hash);
 
                 // store slice Merkle root
                 self.slice_roots.insert((block_id.clone(), slice), root);
@@ -435,6 +441,8 @@ where
                     warn!("repair response (Shred) with invalid Merkle proof or signature");
                     return;
                 };
+
+                self.outstanding_requests.remove(&request_hash);
 
                 // store shred
                 let res = self
